@@ -136,7 +136,7 @@ CLAIMS = {
             'killed (terminated) process is never revived (C01). The races named in the property (kill/pause/play inside one step, pause then kill in a wait, '
             'future cancellation) are evaluated on the model. Tied to the code by ~2.6k real runs per quick run: every sequence of <= 3 requests at every '
             'callback boundary, inside steps and from listeners, each closed by a probing kill.',
-            'DESIGN.md section 4 C04', COMMON_NOTE + 'PARTIAL: that the stepping task, when it runs again, carries the armed kill out (or ends EXCEPTED) is proved per operation on quiet worlds (finish_step with an armed action), not chained over all schedules. Two known findings (KNOWN_FINDINGS.txt): D8 kill issued by a listener during the end-of-step transition, D3b future cancelled while a synchronous chain completes.',
+            'DESIGN.md section 4 C04', COMMON_NOTE + 'PARTIAL: that the stepping task, when it runs again, carries the armed kill out (or ends EXCEPTED) is proved per operation on quiet worlds (finish_step with an armed action), not chained over all schedules. One known finding (KNOWN_FINDINGS.txt): D3b future cancelled while a synchronous chain completes (D8, kill issued by a listener during the end-of-step transition, was repaired: cc71384).',
             'Coq proof: never-raises invariant over all runs (wp calculus) + symbolic execution of kill on quiet worlds + vm_compute correspondence'),
     'C05': ('Machine-checked proof (Coq) over M1, for EVERY run (any program, listener scripts, schedule of pause/play/resume/kill/fail/late callbacks/ticks; no '
             'bound): every step function or continuation that starts and every sample taken by code inside a step (also after an await) sees the process not '
